@@ -24,6 +24,11 @@ package contractcourt
 // a spend that is already on chain with its historical details, and the
 // sweeper answers an input that is already spent at once.
 //
+// In the arm with the real utxo nursery (closesim_c13_nursery.go) the model of
+// the nursery below (zzC13Nurse, onIncubate, nurseryTick) is idle: lnd's
+// nursery is a second client of the notifier and of the sweeper, and what it
+// was handed is durable in ITS store, inside the crash-injected database.
+//
 // Inside one block everything is delivered to the node ONE notification at a
 // time, in a fixed order, each followed by quiescence: spends (sorted by
 // outpoint), sweep results, beacon updates, breach completion, block epochs
@@ -92,6 +97,10 @@ type zzC13Chain struct {
 	swEpoch int
 	swSeen  int
 	swLive  []*zzSweepReq // offered, neither answered nor dropped
+
+	// real-nursery arm: confirmations at or above this height are not yet due
+	// for the nursery (the block is being delivered); 0 = everything is due
+	gate uint32
 }
 
 func zzC13NewChain(ex *zzC13Exec) *zzC13Chain {
@@ -446,6 +455,9 @@ func (c *zzC13Chain) answer(req *zzSweepReq, d *chainntnfs.SpendDetail) {
 // handleSweeps looks at what the live incarnation offered to the sweeper.
 // Returns true if something was delivered to the node (and settled).
 func (c *zzC13Chain) handleSweeps() bool {
+	if c.handleNurseSweeps() {
+		return true
+	}
 	w := c.ex.w
 	inc := w.inc
 	if inc == nil || inc.dead || inc.sw == nil {
@@ -472,6 +484,67 @@ func (c *zzC13Chain) handleSweeps() bool {
 		c.trySweep(req)
 	}
 	return false
+}
+
+// handleNurseSweeps: the same for what the live nursery process offered.
+func (c *zzC13Chain) handleNurseSweeps() bool {
+	n := c.ex.nurse
+	if n == nil || n.proc == nil || !n.proc.alive() {
+		return false
+	}
+	p, w := n.proc, c.ex.w
+	p.mu.Lock()
+	reqs := append([]*zzSweepReq(nil), p.sweeps...)
+	p.mu.Unlock()
+	for p.swSeen < len(reqs) {
+		req := reqs[p.swSeen]
+		p.swSeen++
+		if d := c.spent[req.op]; d != nil {
+			w.logf("sweeper -> nursery: %v already spent by %v", req.op, d.SpenderTxHash)
+			c.ex.r.Count("probe_nursery_sweep_already_spent")
+			c.answer(req, d)
+			w.settle()
+			n.observe()
+			return true
+		}
+		p.swLive = append(p.swLive, req)
+		c.trySweep(req)
+	}
+	return false
+}
+
+// nurseSweepResults answers the nursery's pending sweep requests for op,
+// which was spent in the block being delivered.
+func (c *zzC13Chain) nurseSweepResults(op wire.OutPoint, epoch int) {
+	ex := c.ex
+	n := ex.nurse
+	if n == nil {
+		return
+	}
+	d := c.spent[op]
+	for {
+		p := n.proc
+		if ex.restarts != epoch || p == nil || !p.alive() {
+			return
+		}
+		idx := -1
+		for i, req := range p.swLive {
+			if req.op == op {
+				idx = i
+				break
+			}
+		}
+		if idx < 0 {
+			return
+		}
+		req := p.swLive[idx]
+		p.swLive = append(p.swLive[:idx:idx], p.swLive[idx+1:]...)
+		ex.w.logf("sweeper -> nursery: %v spent by %v", op, d.SpenderTxHash)
+		c.answer(req, d)
+		ex.w.settle()
+		n.observe()
+		ex.pump()
+	}
 }
 
 func (c *zzC13Chain) trySweep(req *zzSweepReq) {
@@ -574,6 +647,11 @@ func (c *zzC13Chain) block() {
 	for _, req := range c.swLive {
 		c.trySweep(req)
 	}
+	if n := ex.nurse; n != nil && n.proc != nil && n.proc.alive() {
+		for _, req := range n.proc.swLive {
+			c.trySweep(req)
+		}
+	}
 
 	// 4. the rest of the world at this height (state first, deliveries after:
 	// a node that is down during this block finds all of it when it is back)
@@ -595,12 +673,52 @@ func (c *zzC13Chain) block() {
 	}
 
 	// ---- notifications, one at a time
+	//
+	// Real-nursery arm: the nursery is a second client of the notifier and of
+	// the sweeper. Which client hears of an event first is not defined; the
+	// chain script's salt fixes it per scenario (nurseFirst).
+	nurse := ex.nurse
+	nurseFirst := nurse != nil && c.salt&1 == 1
+	if nurse != nil {
+		c.gate = H
+		defer func() { c.gate = 0 }()
+	}
+	nurseConfs := func() bool {
+		if nurse == nil {
+			return false
+		}
+		c.gate = 0
+		for nurse.deliverConf() {
+			if ex.pump() || ex.restarts != epoch {
+				return true
+			}
+		}
+		return ex.restarts != epoch
+	}
 	sort.Slice(newly, func(i, j int) bool { return newly[i].String() < newly[j].String() })
+	if nurseFirst && nurseConfs() {
+		return
+	}
 	for _, op := range newly {
+		if nurseFirst {
+			c.nurseSweepResults(op, epoch)
+			if ex.restarts != epoch {
+				return
+			}
+		}
 		c.notifySpend(op)
 		if ex.restarts != epoch {
 			return
 		}
+		if !nurseFirst {
+			c.nurseSweepResults(op, epoch)
+			if ex.restarts != epoch {
+				return
+			}
+		}
+	}
+	if !nurseFirst && nurseConfs() {
+		return
 	}
 	for _, no := range nos {
 		c.pushPreimage(no)
@@ -620,9 +738,25 @@ func (c *zzC13Chain) block() {
 		}
 	}
 	// block epochs
+	if nurseFirst && nurse.deliverEpochs(epoch) {
+		return
+	}
+	if c.arbEpochs(epoch) {
+		return
+	}
+	if nurse != nil && !nurseFirst && nurse.deliverEpochs(epoch) {
+		return
+	}
+}
+
+// arbEpochs delivers the block epoch of the current height to the clients of
+// the live arbitrator incarnation. Returns true if the node restarted.
+func (c *zzC13Chain) arbEpochs(epoch int) bool {
+	ex, w := c.ex, c.ex.w
+	H := w.height
 	inc := w.inc
 	if inc == nil || inc.dead || inc.arb == nil {
-		return
+		return false
 	}
 	inc.chain.mu.Lock()
 	regs := append([]*zzEpochReg(nil), inc.chain.epochs...)
@@ -640,9 +774,10 @@ func (c *zzC13Chain) block() {
 		}
 		w.settle()
 		if ex.pump() || ex.restarts != epoch {
-			return
+			return true
 		}
 	}
+	return false
 }
 
 // notifySpend delivers the confirmed spend of op to the live incarnation.
